@@ -100,17 +100,27 @@ def dump_problem(p):
     }
 
 
-def subtype_table(d):
-    """is_sub_type for every ordered pair of the domain's types (the relation itself, not the parent pointers)"""
+def subtype_table(d, library=True):
+    """the subtype relation on every ordered pair of the domain's types: as PDDLType.is_sub_type answers, or
+    (library=False) read off the parent pointers of this very domain by our own walk"""
     names = list(d.types)
-    return ["%s<=%s" % (a, b) for a in names for b in names if d.types[a].is_sub_type(d.types[b])]
+
+    def walk(a, b):
+        t, steps = d.types[a], 0
+        while t is not None and steps < 64:
+            if t.name == b:
+                return True
+            t, steps = t.parent, steps + 1
+        return False
+    return ["%s<=%s" % (a, b) for a in names for b in names
+            if (d.types[a].is_sub_type(d.types[b]) if library else walk(a, b))]
 
 
-def digest(d):
+def digest(d, library=True):
     """digest of everything dump_domain shows of a Domain object plus its subtype relation"""
     import hashlib
     import json
-    return hashlib.sha1(json.dumps([dump_domain(d), subtype_table(d)], sort_keys=True).encode()).hexdigest()[:16]
+    return hashlib.sha1(json.dumps([dump_domain(d), subtype_table(d, library)], sort_keys=True).encode()).hexdigest()[:16]
 
 
 def canon_domain(d):
@@ -193,6 +203,9 @@ def combine(job):
             r = attempt(lambda name=name: digest(DomainParser(cdir / "aux" / name, partial_parsing=False).parse_domain()))
             out.append([name, r.get("ok", "raised %s" % r.get("raised"))])
         return out
+    # the reference: the digest with the subtype relation read off the domain's own parent pointers (what the
+    # library must answer whatever else this process has parsed or combined before)
+    res["others_expected"] = [[n, digest(others[n], library=False)] for n in onames]
     res["others_before"] = [[n, digest(others[n])] for n in onames]
     res["default_before"] = default_state()
     # ---- per-file vocabulary dumps (what the model is given)
@@ -301,8 +314,8 @@ def combine(job):
     res["others_after"] = [[n, digest(others[n])] for n in onames]
     res["others_again"] = parse_others_again()
     res["default_end"] = default_state()
-    res["others_same"] = all(x == res["others_before"] for x in (
-        res["others_mid"], res["others_again_mid"], res["others_after"], res["others_again"]))
+    res["others_same"] = all(x == res["others_expected"] for x in (
+        res["others_before"], res["others_mid"], res["others_again_mid"], res["others_after"], res["others_again"]))
     if not job.get("keep"):
         shutil.rmtree(cdir, ignore_errors=True)
     return res
